@@ -25,7 +25,11 @@ META = dict(
                "the result it returns on d (ids, order, properties, aliases); C05_db_stored_depends_on_map_only; non-vacuity C05_db_sample: a database (2 nodes, 1 edge, alias, inline and out-of-line values, an index) "
                "created by the collection programs on the storage model satisfies stored_db for the database three queries produce, load_db returns exactly it, also after optimize / reopen / backup and on the "
                "memory-like storage. MISSING LINK (named in Props/C05.v, not proved): C05_db_operations_preserve_stored_db — that each DbImpl mutation (db.rs over graph.rs / multi_map.rs / db_key_value.rs / db_index.rs "
-               "on the storage) leaves a storage state representing the DbModel result, i.e. that stored_db holds after every history of queries; checked on every run by correspondence (c) below. "
+               "on the storage) leaves a storage state representing the DbModel result, i.e. that stored_db holds after every history of queries; checked on every run by correspondence (c) below. Its SHAPE is carried out for one component: "
+               "C05_db_graph_histories_preserve_stored_db_partial — EVERY history of the GraphData interface (the interface graph.rs is written against) run on the graph of a stored database leaves a stored database whose graph arrays "
+               "are the plain arrays' result and whose aliases, indexes and values are unchanged, the change confined to the database's footprint (from C05_graph_history, the pairwise distinct footprints and C05_db_footprint_live); "
+               "C05_db_alias_lookups_by_probing — the link to C19: on stored alias tables satisfying the invariant C19 proves of every reachable table, for every hash function, the code's PROBING lookups (MapImpl::value) return exactly "
+               "the model's alias lookups (the loader itself scans slots and needs no probe chain). "
                "L1: C05_storage_maintenance_partial — on every reachable storage state backup+open, drop+open of a committed file and optimize_storage preserve the map index -> bytes of live records exactly; "
                "C05_clean_reopen_identity. "
                "L2, vectors (FULL): C05_vec_history — for EVERY history of push / replace / remove / swap / resize / reserve / shrink_to_fit / value / iteration / len on a storage-backed vector, interleaved at will "
